@@ -121,7 +121,16 @@ LogicPool(d) ==
        \cup Vals(K_not, Leaves(d))
        \cup (IF d = 7 THEN Vals(K_if, Leaves(d)) \cup Vals(K_then, Leaves2(d)) \cup Vals(K_else, Leaves2(d)) ELSE {})
 
+\* keywords of the OTHER drafts, with values that would bite if the draft honoured them (it must not: C01, C10)
+OtherDraftPool(d) ==
+  (IF d >= 4 THEN { <<K_divisibleBy, N2>>, <<K_disallow, Str(T_integer)>>, <<K_extends, TStr>> }
+   ELSE { <<K_multipleOf, N2>>, <<K_not, TInt>>, <<K_allOf, Arr(<<TStr>>)>>, <<K_anyOf, Arr(<<TStr>>)>>, <<K_oneOf, Arr(<<TStr>>)>>,
+          <<K_minProperties, N2>>, <<K_maxProperties, N0>> })
+  \cup (IF d <= 4 THEN { <<K_const, N1>>, <<K_contains, TStr>>, <<K_propertyNames, Obj1(K_maxLength, N0)>> } ELSE {})
+  \cup (IF d <= 6 THEN { <<K_then, Never(d)>>, <<K_else, Never(d)>> } ELSE {})
+
 Pool(d) == TypePool(d) \cup ValuePool(d) \cup NumPool(d) \cup StrPool(d) \cup ArrPool(d) \cup ObjPool(d) \cup LogicPool(d)
+           \cup OtherDraftPool(d)
 
 \* the interacting families (all members may be combined with one another)
 Families(d) == {
